@@ -10,7 +10,10 @@ from typing import Any
 
 
 def _make_key(method):
-    method = method.func if isinstance(method, partial) else method
+    if isinstance(method, partial):
+        # the signature of a partial also depends on the arguments it already binds
+        bound = (len(method.args), tuple(sorted(method.keywords)))
+        return hash((_make_key(method.func), bound))
     method = method.fget if isinstance(method, property) else method
     # the signature follows `__wrapped__`: decorated callables share the decorator's code object
     wrapped_code = getattr(unwrap(method), "__code__", None)
